@@ -13,6 +13,16 @@ CLAIMED = {
    technique="bounded-exhaustive enumeration of table shapes x seek targets, and exhaustive single-byte damage enumeration, on the real SSTable writer/reader",
    text="Every table shape of the alphabet (entry counts around the restart interval 16, all tombstone masks up to 4/6 entries, empty values, prefix/binary/long keys, 2-5 block tables) is written with the real Writer and read back with the real Reader: forward iteration must equal the written list (key, value, deletion flag, sequence number), Seek to every key/gap/end followed by iteration to the end, SeekToLast, Get of every key and every non-key. Every single byte of the small files (and head/stride/tail positions of the multi-block file) is damaged with three value classes; open+iterate+get must fail with an error or yield only written entries - a panic, fatal error, fabricated or disordered entry is a violation.",
    note="Trusted: Go runtime, tmpfs. Not covered: multi-byte damage, keys > 302 B, values > 20 KiB. A worker killed by a fatal error is reported with the case it was evaluating."),
+ "C09": dict(
+   level="model_checking", design="§3 C09, §2.4",
+   technique="explicit-state exploration of operation programs on the real WAL (all sequences up to a depth over a boundary-shape alphabet) against a list reference model",
+   text="Every program up to depth 3 (4 thorough) over appends of 10-14 key/value shapes chosen on the record-format boundaries, 6-7 batches (incl. totals around the 64 KiB buffer and a batch that must be rejected without trace), rotation and reopen is run on the real wal.WAL under two sync modes; ReplayWALDir must return exactly the appended entries (type, key, value, sequence number) in order and GetEntriesFrom(s) exactly the stored entries with seq >= s for every s in [0,max+2].",
+   note="Trusted: Go runtime, tmpfs. Rotation hands the sequence number over the way the engine is supposed to. Bounds: depth, shape alphabet, <=2 rotations/reopens."),
+ "C10": dict(
+   level="fault_enumeration", design="§3 C10, §2.3",
+   technique="exhaustive damage enumeration (every truncation offset, every single-byte overwrite x 5 value classes) over recorded logs, recovery run on the real WAL reader and engine",
+   text="For 8 base logs every truncation offset of the newest file and every single-byte overwrite (5 value classes) is applied; ReplayWALDir must deliver a subsequence of the appended entries (all four fields equal) containing every entry completely written before the first damaged byte and every entry of older files; the real engine must open, show those entries and nothing that was never written, keep the log files, accept two writes and show old and new data after a clean close and a second recovery.",
+   note="Trusted: an independent parser of the undamaged file supplies record boundaries. Single damage per log; files > 4 KiB use header/boundary/stride positions."),
 }
 
 ALL = ["C%02d" % i for i in range(1, 21)]
